@@ -232,6 +232,8 @@ def run(tier):
     loadervc.check_data_loader(rep, 'C12')          # the emitted machine-code loader, executed over the ISA contracts
     loadervc.check_bank_loader(rep, 'C12')          # the 128K bank loader for every subset of banks
     fastloadvc.check_fast_load(rep, 'C12')          # tap2sna's stand-in for LD-BYTES puts block[1+k] at IX+k
+    loadervc.crosscheck_loaders(rep, 'C12')
+    fastloadvc.crosscheck_fast_load(rep, 'C12')
     quick = tier == 'quick'
     n = 32 if quick else 1500
     t0 = time.time()
